@@ -59,8 +59,8 @@ def iloopFast (P : Prob n K) (R : IParams K) : ℕ → ISt n K → ISt n K
     else s
 
 def improveFast (P : Prob n K) (R : IParams K) (fuel : ℕ) (s : ISt n K) : Fin n → K :=
-  let fin := iloopFast P R fuel s
-  if qval P fin.step > qval P s.step then s.step else fin.step
+  let fin := rescale R P.delta (iloopFast P R fuel s).step
+  if qval P fin > qval P s.step then s.step else fin
 
 /-- the whole solver, with the `boundary_reached` flag of the first phase -/
 def tcgFullFast (P : Prob n K) (Q : Params n K) (R : IParams K) (fuel fuel2 : ℕ) (improveTcg : Bool) : (Fin n → K) × Bool :=
